@@ -41,6 +41,10 @@ def tolerate_empty_data_at_negative_window():
     h2.windows.WindowManager._hv_patched = True
 
 
+class ReaderDead(Exception):
+    """The connection's reader task has ended with an exception: an internal error of the server."""
+
+
 class SendRig:
     """One HTTP/2 connection, stepped explicitly."""
 
@@ -154,6 +158,8 @@ class SendRig:
     def _reader_step(self):
         out = self.client.data_to_send()
         self.rig.feed(out)
+        if self.reader.done:
+            raise ReaderDead()
         assert self.reader.runnable()
         self.driver.step(self.reader)
         self._drain_client()
@@ -327,73 +333,76 @@ def gen_case(seed):
             break
         a = rng.choice(choices)
         stats[a] += 1
-        if a == "open":
-            script, prog, kind = script_and_prog(rng)
-            stats["kinds"][kind] = stats["kinds"].get(kind, 0) + 1
-            sid = next_sid
-            next_sid += 2
-            rig.open(sid, script, body_open=rng.random() < 0.3)
-            groups.append(f"GClient (COpen {sid} [{'; '.join(prog)}])")
-        elif a == "win":
-            live = [s for s in rig.order if _can_update(rig.client, s)]
-            if not live:
-                continue
-            sid = rng.choice(live)
-            n = rng.choice([1, 10, 1000, 16384, 40000, 100000])
-            rig.win(sid, n)
-            groups.append(f"GClient (CWin {sid} {n})")
-        elif a == "connwin":
-            n = rng.choice([1, 10, 1000, 16384, 40000, 100000])
-            rig.win(0, n)
-            groups.append(f"GClient (CConnWin {n})")
-        elif a == "iw":
-            n = rng.choice(WINDOWS)
-            rig.initial_window(n)
-            groups.append(f"GClient (CInitialWindow {n})")
-        elif a == "reset":
-            live = [s for s in rig.order if _can_update(rig.client, s)]
-            if not live:
-                continue
-            sid = rng.choice(live)
-            rig.reset(sid)
-            groups.append(f"GClient (CReset {sid})")
-        elif a == "priority":
-            # any stream: open, closed, reset, or an idle one that has not been requested yet
-            cands = list(rig.order) + [next_sid]
-            sid = rng.choice(cands)
-            deps = [0] + [x for x in rig.order if x != sid]
-            dep = rng.choice(deps)
-            try:
-                rig.priority(sid, depends_on=dep, weight=rng.choice([1, 16, 256]), exclusive=rng.random() < 0.3)
-            except Exception:  # noqa: BLE001  (the client library refused to build the frame)
-                continue
-            groups.append(f"GClient (CPriority {sid} {dep})")
-        elif a in ("data", "ended"):
-            live = [x for x in rig.order if rig.req_open.get(x) and _can_update(rig.client, x)]
-            if not live:
-                continue
-            sid = rng.choice(live)
-            if a == "data":
-                if rig.data_sent.get(sid, 0) >= 3:
+        try:
+            if a == "open":
+                script, prog, kind = script_and_prog(rng)
+                stats["kinds"][kind] = stats["kinds"].get(kind, 0) + 1
+                sid = next_sid
+                next_sid += 2
+                rig.open(sid, script, body_open=rng.random() < 0.3)
+                groups.append(f"GClient (COpen {sid} [{'; '.join(prog)}])")
+            elif a == "win":
+                live = [s for s in rig.order if _can_update(rig.client, s)]
+                if not live:
                     continue
-                rig.data_sent[sid] = rig.data_sent.get(sid, 0) + 1
-                rig.data(sid, rng.choice([1, 100, 5000]))
-                groups.append(f"GClient (CData {sid})")
-            else:
-                rig.end_request(sid)
-                groups.append(f"GClient (CEnded {sid})")
-        elif a == "eof":
-            rig.eof()
-            eofed = True
-            groups.append("GClient CEof")
-        elif a == "app":
-            sid = rng.choice(runnable_apps)
-            rig.step_app(sid)
-            groups.append(f"GApp {sid} 12%nat")
-        elif a == "send":
-            picks, done = rig.step_send()
-            ps = "; ".join("None" if x is None else f"Some {x}" for x in picks)
-            groups.append(f"GSend true [{ps}] {'true' if done else 'false'}")
+                sid = rng.choice(live)
+                n = rng.choice([1, 10, 1000, 16384, 40000, 100000])
+                rig.win(sid, n)
+                groups.append(f"GClient (CWin {sid} {n})")
+            elif a == "connwin":
+                n = rng.choice([1, 10, 1000, 16384, 40000, 100000])
+                rig.win(0, n)
+                groups.append(f"GClient (CConnWin {n})")
+            elif a == "iw":
+                n = rng.choice(WINDOWS)
+                rig.initial_window(n)
+                groups.append(f"GClient (CInitialWindow {n})")
+            elif a == "reset":
+                live = [s for s in rig.order if _can_update(rig.client, s)]
+                if not live:
+                    continue
+                sid = rng.choice(live)
+                rig.reset(sid)
+                groups.append(f"GClient (CReset {sid})")
+            elif a == "priority":
+                # any stream: open, closed, reset, or an idle one that has not been requested yet
+                cands = list(rig.order) + [next_sid]
+                sid = rng.choice(cands)
+                deps = [0] + [x for x in rig.order if x != sid]
+                dep = rng.choice(deps)
+                try:
+                    rig.priority(sid, depends_on=dep, weight=rng.choice([1, 16, 256]), exclusive=rng.random() < 0.3)
+                except Exception:  # noqa: BLE001  (the client library refused to build the frame)
+                    continue
+                groups.append(f"GClient (CPriority {sid} {dep})")
+            elif a in ("data", "ended"):
+                live = [x for x in rig.order if rig.req_open.get(x) and _can_update(rig.client, x)]
+                if not live:
+                    continue
+                sid = rng.choice(live)
+                if a == "data":
+                    if rig.data_sent.get(sid, 0) >= 3:
+                        continue
+                    rig.data_sent[sid] = rig.data_sent.get(sid, 0) + 1
+                    rig.data(sid, rng.choice([1, 100, 5000]))
+                    groups.append(f"GClient (CData {sid})")
+                else:
+                    rig.end_request(sid)
+                    groups.append(f"GClient (CEnded {sid})")
+            elif a == "eof":
+                rig.eof()
+                eofed = True
+                groups.append("GClient CEof")
+            elif a == "app":
+                sid = rng.choice(runnable_apps)
+                rig.step_app(sid)
+                groups.append(f"GApp {sid} 12%nat")
+            elif a == "send":
+                picks, done = rig.step_send()
+                ps = "; ".join("None" if x is None else f"Some {x}" for x in picks)
+                groups.append(f"GSend true [{ps}] {'true' if done else 'false'}")
+        except ReaderDead:
+            break
         obs.append(rig.observe())
     term = f"({params[0]}, {params[1]}, {params[2]}, [{'; '.join(groups)}])"
     expected = C.V([obs, rig.frame_obs()])
